@@ -50,14 +50,16 @@ def frombufferMeaning (data : Bytes) : List Py.Act → Option Store
       some ⟨pySlice (bytesToBits data) none (some l), modLenOf ml, true⟩
   | _ => none
 
-/-- Closes the leaves left after the guards have been split: identical results (`rfl`), contradictory guards
-    (`contradiction` / `omega`), or equal results whose index arithmetic is written differently (`simp`, `grind`). -/
+/-- Closes the leaves left after ALL guards of both sides have been split with `split_ifs` (whatever their order,
+    nesting or polarity in the source): contradictory guards (`omega`, or a literal `False`), syntactically identical
+    results (`with_reducible rfl`), or results that agree after unfolding the meaning (`simp`) up to the way the
+    index arithmetic is written (`omega` / congruence + linear arithmetic by `grind`). -/
 local macro "leaf" : tactic =>
   `(tactic| first
-    | rfl
-    | contradiction
     | omega
-    | (simp; first | done | grind))
+    | (exfalso; assumption)
+    | with_reducible rfl
+    | (simp [Except.map, setBytesMeaning, frombufferMeaning, modLenOf]; first | done | omega | grind))
 
 /-- `Bits._setbytes_with_truncation` as the source has it now = `C17.setBytes`, for every byte string, length and
     offset (`len_data` is `len(data)`, the number of bytes).  Same argument order as the translated function:
@@ -78,10 +80,9 @@ theorem frombuffer_eq (data : Bytes) (length : Option Int) :
     (Gen.Src.frombuffer length ((bytesToBits data).length : Int)).map (frombufferMeaning data)
       = (Store.frombuffer data length).map some := by
   unfold Gen.Src.frombuffer Store.frombuffer
-  rcases length with _ | l
-  · rfl
-  · simp only [List.nil_append, List.cons_append, decide_eq_true_eq]
-    split_ifs <;> leaf
+  rcases length with _ | l <;>
+    simp [Except.map, frombufferMeaning, modLenOf]
+  all_goals (split_ifs <;> leaf)
 
 /-- Non-vacuity: `Bits(bytes=b'\xa5\x0f', offset=4, length=8)`. -/
 example : (Gen.Src.setbytes_with_truncation (some 8) (some 4) 2).map (setBytesMeaning [0xa5, 0x0f])
